@@ -127,6 +127,22 @@ CLAIMED["C09"] = dict(
     design="DESIGN.md section 3, C09",
 )
 
+CLAIMED["C13"] = dict(
+    category="other",
+    technique="static value/shape agreement of hash.ts with FIPS 180-4 recomputed by the checker (swc AST), truth tables for ch/maj, per-class field-coverage and prefix-free framing rules on hash256()",
+    text=("Decides facts any real SHA-256 over a prefix-free canonical encoding must contain, for every execution of the digest "
+          "routine: all 64 round constants and 8 initial values equal the recomputed fractional roots of the primes; the four "
+          "rotation triples sit on the right operands (working variables identified through the state rotation, not by name); "
+          "ch/maj have their truth tables; schedule recurrence, T1/T2, state rotation, feed-forward, padding byte, threshold "
+          "(> 56), big-endian length field and word load. Per class: every structural constructor field is read by hash256(), "
+          "tags are pairwise distinct, every collection loop is length-prefixed, optional parts are tagged on both branches, "
+          "no digest reads metadata/names or iterates unsorted keys, cycle bookkeeping is paired."),
+    note=("Trusted: swc AST; the re-derivation of FIPS 180-4 in rules/c13.py; the 4-entry derived-field table. Not decided: "
+          "collision-freedom beyond coverage+framing, buffer arithmetic across block boundaries (boundary-value behaviour), "
+          "TextEncoder."),
+    design="DESIGN.md section 3, C13",
+)
+
 NOT_APPLICABLE_REASON = {}
 
 
